@@ -4,11 +4,13 @@ package main
 
 import (
 	"encoding/json"
+	"flag"
 	"fmt"
 	"os"
 	"os/exec"
 	"path/filepath"
 	"regexp"
+	"sort"
 	"strings"
 	"time"
 )
@@ -79,6 +81,47 @@ func runStandins(o *checkOpts) []standinResult {
 }
 
 func tryReplay(prog *Program, o *checkOpts, ob *Obligation, rep map[string]interface{}) bool {
+	if os.Getenv("GVC_NO_REPLAY") != "" {
+		return false
+	}
+	var fi *FuncInfo
+	fname, inst := ob.Func, ""
+	if i := strings.Index(fname, "<"); i >= 0 {
+		fname, inst = fname[:i], fname[i:]
+	}
+	if h := strings.Index(ob.Name, "#"); h > 0 && inst == "" {
+		if i := strings.Index(ob.Name[:h], "<"); i >= 0 {
+			inst = ob.Name[i:h] // the instantiation is part of the obligation's name: pkg.F<T=int16>#post0[0]
+		}
+	}
+	for _, pk := range prog.Pkgs {
+		for _, f := range pk.Funcs {
+			if f.FullName() == fname {
+				fi = f
+			}
+		}
+	}
+	if fi == nil || fi.Spec == nil {
+		rep["replay"] = "not attempted: no function under contract behind this obligation"
+		return false
+	}
+	ints, lens, mtext := modelHints(ob)
+	if mtext != "" {
+		rep["solver_model"] = mtext
+	}
+	r := replayFunctionInst(prog, o, fi, ints, lens, inst)
+	if r.file != "" {
+		rep["replay_test"] = r.file
+		rep["replay_cmd"] = "go test -overlay <{Replace: {<pkgdir>/zz_verif_replay_test.go: " + r.file + "}}> -vet=off -run ^TestVerifReplay$ ./<pkgdir>/ (in /repo)"
+	}
+	if r.found {
+		rep["replay"] = "failing input found on the real code"
+		rep["failing_input"] = r.input
+		rep["violated_clause"] = r.clause
+		rep["replay_output"] = r.output
+		return true
+	}
+	rep["replay"] = "no failing input found: " + r.reason
 	return false
 }
 
@@ -93,5 +136,61 @@ func cmdReplay(args []string) int {
 		return 2
 	}
 	fmt.Println(string(data))
+	return 0
+}
+
+// cmdReplayCheck: self-test of the replay generator. Runs the generated contract-evaluating test of
+// every replayable function under contract on the tree as it is; on a tree where the proofs go
+// through, a violation reported here is a defect of the spec-to-Go translation (or of a contract that
+// is proved from wrong assumptions) and must be looked at before any replay result is believed.
+func cmdReplayCheck(args []string) int {
+	fs := flag.NewFlagSet("replaycheck", flag.ExitOnError)
+	var o checkOpts
+	fs.StringVar(&o.prop, "property", "", "property id (empty: all)")
+	fs.StringVar(&o.repo, "repo", "/repo", "repository")
+	fs.StringVar(&o.outDir, "out", "/tmp/gvc-replaycheck", "output directory")
+	fs.Parse(args)
+	repoDir = strings.TrimSuffix(o.repo, "/")
+	prog, err := loadProgram(o.repo)
+	if err != nil {
+		fmt.Fprintln(os.Stderr, err)
+		return 2
+	}
+	bad := 0
+	var keys []string
+	byKey := map[string]*FuncInfo{}
+	for _, pk := range prog.Pkgs {
+		for _, f := range pk.Funcs {
+			if f.Spec == nil || f.Spec.Ext || f.Decl == nil || f.Decl.Recv != nil || strings.HasPrefix(f.Key, "verifClient") {
+				continue
+			}
+			if o.prop != "" && !hasProp(f.Spec.Props, o.prop) {
+				continue
+			}
+			keys = append(keys, f.FullName())
+			byKey[f.FullName()] = f
+		}
+	}
+	sort.Strings(keys)
+	for _, k := range keys {
+		f := byKey[k]
+		oo := o
+		if oo.prop == "" && len(f.Spec.Props) > 0 {
+			oo.prop = f.Spec.Props[0]
+		}
+		r := replayFunction(prog, &oo, f, nil, nil)
+		switch {
+		case r.found:
+			bad++
+			fmt.Printf("REPLAYCHECK-VIOLATION %s %s\n", k, r.output)
+		case r.tried && strings.HasPrefix(r.reason, "no candidate input"):
+			fmt.Printf("replaycheck ok      %s (%d candidate inputs)\n", k, r.nCands)
+		default:
+			fmt.Printf("replaycheck skipped %s: %s\n", k, truncate(r.reason, 200))
+		}
+	}
+	if bad > 0 {
+		return 1
+	}
 	return 0
 }
